@@ -518,6 +518,43 @@ def gen_hist_case(seed, i):
     return {"stream": "hist", "i": i, "mode": mode, "via": via, "file": gen_file_state(r), "cmds": cmds}
 
 
+def boundary_values():
+    """texts AT every boundary of every validated key: bound-1, bound, bound+1 as int and as float text, signed zeros,
+    very large, non-numeric, empty; bounds = the documented ones (0) and whatever the guards of the source use now"""
+    try:
+        from translator import items_cfgtool
+        items_cfgtool.validators()
+        src = dict(items_cfgtool.BOUNDS)
+    except Exception:  # noqa: BLE001  (fail-closed item: the documented bound is still drawn)
+        src = {}
+    out = {}
+    for key in ("timeout", "max_retries"):
+        vals = []
+        for b in sorted({0, src.get(key, 0)}):
+            for x in (b - 1, b, b + 1):
+                vals += [str(x), f"{x}.0", f"{x}.5" if x >= 0 else f"{x}.5"]
+            vals += [f"{b}.001", f"{b}.000", f"0{b}"]
+        vals += ["-0", "-0.0", "+0", "0.0", "0.000", "-0.001", "0.0001", "99999999999999999999", "123456789012.5", "many", "", " ",
+                 "true", "false", "1e0", "nan", "inf", "-inf"]
+        out[key] = list(dict.fromkeys(vals))
+    out["log_level"] = DOC_LEVELS + ["debug", "Info", "TRACE", "", "0", "true", "WARN"]
+    out["output_format"] = DOC_FORMATS + ["TEXT", "xml", "", "1", "sarif", "Json"]
+    out["app_name"] = ["tool", "", " ", "   ", "0", "1.5", "true", "a b"]
+    return out
+
+
+def boundary_cases():
+    """deterministic: every boundary value of every validated key, on a yaml and on a json config file, absent and present"""
+    cases = []
+    for key, vals in boundary_values().items():
+        for j, v in enumerate(vals):
+            for mode in ("yaml", "json"):
+                file = None if (j % 2 == 0) else [("greeting", "kept"), ("timeout", 7), ("max_retries", 2)]
+                cases.append({"stream": "hist", "i": f"boundary:{key}:{j}:{mode}", "mode": mode, "via": "api", "file": file,
+                              "cmds": [["get", key], ["set", key, v], ["get", key], ["get", "greeting"]], "boundary": True})
+    return cases
+
+
 def _dump_state(path: Path, items):
     m = impl()
     d = dict(items) if len({k for k, _ in items}) == len(items) else None
@@ -643,6 +680,10 @@ def coq_hist(case, res):
     return (f"judge_hist cfgtool_actual {coq.coq_bool(case['mode'] != 'default')} {f0} {coq.coq_list(cmds)} {coq.coq_list(obs)}")
 
 
+def _is_nan(v) -> bool:
+    return isinstance(v, float) and v != v
+
+
 def spec_convert(t: str):
     """the documented conversion of `config set` values, independent of the repo's helper: booleans, integers, decimals, text"""
     if t.lower() in ("true", "false"):
@@ -653,6 +694,37 @@ def spec_convert(t: str):
         except ValueError:
             pass
     return t
+
+
+DOC_LEVELS = ["DEBUG", "INFO", "WARNING", "ERROR", "CRITICAL"]
+DOC_FORMATS = ["text", "json", "yaml"]
+
+
+def doc_invalid(cfg: dict) -> list:
+    """validity of a loaded configuration AS DOCUMENTED (error messages of src/config.py, docs/cli-reference.md), written
+    independently of the repo's validators: required app_name / log_level; log_level a logging level name; output_format
+    text|json|yaml; max_retries a non-negative integer; timeout a positive number; app_name a non-empty string"""
+    bad = []
+    for k in ("app_name", "log_level"):
+        if k not in cfg:
+            bad.append(f"{k} missing")
+    if "log_level" in cfg and cfg["log_level"] not in DOC_LEVELS:
+        bad.append(f"log_level {cfg['log_level']!r} is not a level name")
+    if "output_format" in cfg and cfg["output_format"] not in DOC_FORMATS:
+        bad.append(f"output_format {cfg['output_format']!r} is not text/json/yaml")
+    if "max_retries" in cfg:
+        v = cfg["max_retries"]
+        if not isinstance(v, int) or not v >= 0:
+            bad.append(f"max_retries {v!r} is not a non-negative integer")
+    if "timeout" in cfg:
+        v = cfg["timeout"]
+        if not isinstance(v, (int, float)) or not v > 0:
+            bad.append(f"timeout {v!r} is not a positive number")
+    if "app_name" in cfg:
+        v = cfg["app_name"]
+        if not isinstance(v, str) or not v.strip():
+            bad.append(f"app_name {v!r} is not a non-empty string")
+    return bad
 
 
 def marker_ok_py(text: str) -> bool:
@@ -684,6 +756,7 @@ def py_hist_oracle(case, res):
     m = impl()
     fails = []
     exp = {}
+    seen = {}   # normalised key -> (rc, stdout) of the latest get, dropped when an accepted set of the key / a reset intervenes
     for n, (c, s) in enumerate(zip(case["cmds"], res["steps"])):
         if s["err"].startswith("EXC"):
             fails.append(f"step {n}: internal exception {s['err']}")
@@ -697,17 +770,21 @@ def py_hist_oracle(case, res):
                     fails.append(f"step {n}: accepted set left no readable file ({st})")
                     continue
                 loaded = m["scfg"].merge_configs(m["scfg"].DEFAULT_CONFIG.copy(), norm_cfg(dict((k, v) for k, v in st)))
-                ok, errs = m["scfg"].validate_config(loaded)
-                if not ok:
-                    fails.append(f"step {n}: file written by `set {c[1]} {c[2]!r}` does not validate: {errs}")
+                bad = doc_invalid(loaded)
+                if bad:
+                    fails.append(f"step {n}: file written by `set {c[1]} {c[2]!r}` is not valid as documented: {bad}")
                 want = spec_convert(c[2])
                 got = norm_cfg(dict((k, v) for k, v in st)).get(nk(c[1]), "<absent>")
                 if repr(got) != repr(want) or type(got) is not type(want):
                     fails.append(f"step {n}: value of {c[1]} after save/load is {got!r}, accepted {want!r}")
                 exp[nk(c[1])] = str(want)
+                seen.pop(nk(c[1]), None)
         elif c[0] == "get":
             if not s["bytes_same"]:
                 fails.append(f"step {n}: get changed the file")
+            if nk(c[1]) in seen and seen[nk(c[1])] != (s["rc"], s["out"]):
+                fails.append(f"step {n}: `get {c[1]}` changed from {seen[nk(c[1])]} to {(s['rc'], s['out'])} although no set of it was accepted in between (get unchanged)")
+            seen[nk(c[1])] = (s["rc"], s["out"])
             if nk(c[1]) in exp and s["rc"] != 2:
                 out = s["out"][:-1] if s["out"].endswith("\n") else s["out"]
                 if s["rc"] != 0 or out != exp[nk(c[1])]:
@@ -715,6 +792,7 @@ def py_hist_oracle(case, res):
         else:
             if s["rc"] == 0:
                 exp = {}
+                seen = {}
     return fails
 
 
@@ -871,7 +949,10 @@ def run(tier: str, seed: int, replay: str | None = None) -> int:
         "boundary / at position 0 / inside an entry / mid-line / before `---` / as decoy; edited copies of generated files; flow-style roots; empty and "
         "invalid files) x preset, `init-config --non-interactive` run twice; non-trivial = a valid file with at least one entry from which at least "
         "one section is missing.  hist: histories of 3-9 config set/get/reset commands on ./config.yaml (real CLI) or --config x.yaml / x.json over an absent / valid / "
-        "invalid / hyphen-keyed file, values drawn per key from valid, invalid and re-typed texts; non-trivial = at least one accepted and one rejected "
+        "invalid / hyphen-keyed file, values drawn per key from valid, invalid and re-typed texts, PLUS a deterministic boundary stream: for every validated key "
+        "(timeout, max_retries, log_level, output_format, app_name) every boundary text (bound-1, bound, bound+1 as int and float text, signed zeros, very large, "
+        "non-numeric, empty, nan/inf) on a yaml and a json file; oracle: rejected => file byte-identical and get unchanged, accepted => get returns it and the "
+        "loaded file is valid AS DOCUMENTED (written independently of src/config.py); non-trivial = at least one accepted and one rejected "
         "or re-read set.  Unit streams: _convert_value_type, extract_linter_sections on mutated templates, merge_config_sections on arbitrary text. "
         "distinct = distinct (input, commands)")
     chk.trusted_base += [
@@ -894,7 +975,7 @@ def run(tier: str, seed: int, replay: str | None = None) -> int:
     frac = float(os.environ.get("C20_DEBUG_FRACTION", "1"))   # development aid only
     scale = scale * frac
     n_init = (150 if quick else 1500) * scale
-    n_hist = (130 if quick else 1300) * scale
+    n_hist = (100 if quick else 1300) * scale
     n_conv = (300 if quick else 3000) * scale
     n_xtr = (24 if quick else 240) * scale
     n_mfn = (120 if quick else 1200) * scale
@@ -909,6 +990,7 @@ def run(tier: str, seed: int, replay: str | None = None) -> int:
         else:
             cases = corpus_cases()
             cases += [gen_init_case(seed, i) for i in range(n_init)]
+            cases += boundary_cases()
             cases += [gen_hist_case(seed, i) for i in range(n_hist)]
             cases += [gen_xtr_case(seed, i) for i in range(n_xtr)]
             cases += [gen_mfn_case(seed, i) for i in range(n_mfn)]
@@ -1118,6 +1200,7 @@ def decide_hist(chk, case, res, ver, cands_all):
     gets_after = any(c[0] == "get" for c in case["cmds"][1:])
     chk.count(["hist", case["mode"], case["file"], case["cmds"]], acc >= 1 and (rej >= 1 or gets_after))
     chk.dist("stream:hist")
+    chk.dist("hist.kind:" + ("boundary" if case.get("boundary") else "random"))
     chk.dist("hist.mode:" + case["mode"])
     chk.dist("hist.via:" + case["via"])
     chk.dist("hist.file:" + ("absent" if case["file"] is None else "present"))
@@ -1127,18 +1210,24 @@ def decide_hist(chk, case, res, ver, cands_all):
     chk.sample({"stream": "hist", "mode": case["mode"], "file": case["file"], "cmds": case["cmds"],
                 "observed": [[s["rc"], s["out"].strip()[:60]] for s in res["steps"]]}, 5)
     info = {"case": case, "observed": [{"rc": s["rc"], "out": s["out"][:200], "state": s["state"], "bytes_same": s["bytes_same"]} for s in res["steps"]]}
+    if ver is not None and not bool(ver[3][0]):
+        ver = None    # a text on which the model does not predict int()/float(): Python oracle only
     if ver is None:
         chk.dist("hist.no_model_verdict")
         # a value outside the modelled domain, or the model did not build: by C20_history_partial a failure on a history
-        # without hyphenated keys cannot be the listed finding
-        if fails and all("-" not in c[1] for c in case["cmds"] if len(c) > 1):
-            chk.violation({"reason": "config set/get history violates the property (no model verdict; no hyphenated key involved): " + "; ".join(fails[:3]), **info})
+        # without hyphenated keys cannot be the listed key finding
+        nan_sets = [n for n, c in enumerate(case["cmds"]) if c[0] == "set" and nk(c[1]) == "timeout" and _is_nan(spec_convert(c[2]))]
+        rest = [f for f in fails if not any(f.startswith(f"step {n}:") and "not valid as documented" in f and "timeout nan" in f for n in nan_sets)]
+        if fails and not rest:
+            chk.known_finding("timeout_nan_accepted", {"mode": case["mode"], "file": case["file"], "cmds": case["cmds"], "failures": fails[:3]})
+        elif fails and all("-" not in c[1] for c in case["cmds"] if len(c) > 1):
+            chk.violation({"reason": "config set/get history violates the property (no model verdict; no hyphenated key involved): " + "; ".join(rest[:3]), **info})
         return cands_all
     chk.traces_validated += len(case["cmds"])
     spec_bits, ideal_ok, cand = [bool(b) for b in ver[0]], bool(ver[1][0]), [bool(b) for b in ver[2]]
     cands_all = cand if cands_all is None else [a and b for a, b in zip(cands_all, cand)]
     coq_ok = all(spec_bits) and len(spec_bits) == len(case["cmds"])
-    byte_fail = [f for f in fails if "changed the file" in f]
+    byte_fail = [f for f in fails if "changed the file" in f or "(get unchanged)" in f]   # Python-only rules
     py_ok = not fails
     if coq_ok != (not [f for f in fails if f not in byte_fail]):
         chk.correspondence_broken({"level": "spec", "detail": "trace specification in Coq and the Python oracle disagree", "python_failures": fails,
@@ -1149,7 +1238,7 @@ def decide_hist(chk, case, res, ver, cands_all):
             chk.correspondence_broken({"level": "observable", "detail": "history satisfies the specification but matches no candidate model", **info})
         return cands_all
     info["reason"] = "config set/get history violates the property: " + "; ".join(fails[:3])
-    if cand[0] and ideal_ok and not byte_fail:
+    if cand[0] and ideal_ok and not [f for f in byte_fail if "changed the file" in f]:
         chk.known_finding("q_cli_raw_key", {"mode": case["mode"], "file": case["file"], "cmds": case["cmds"], "failures": fails[:3]})
     else:
         info["model_actual_matches_impl"] = cand[0]
